@@ -353,6 +353,10 @@ pub trait Manager: Sized {
     fn var_to_level(&self, var: VarNo) -> (l: LevelNo)
         requires (var as int) < self.num_levels_spec()
         ensures l as int == self.var_to_level_spec(var as int), (l as int) < self.num_levels_spec() <= u32::MAX as int;
+    spec fn level_to_var_spec(&self, l: int) -> int;
+    fn level_to_var(&self, level: LevelNo) -> (v: VarNo)
+        requires (level as int) < self.num_levels_spec()
+        ensures v as int == self.level_to_var_spec(level as int), (v as int) < self.num_levels_spec();
 }
 pub mod oxidd_core {
     pub use super::LevelView;
